@@ -85,10 +85,10 @@ mod h {
     /// E1500: two profiles with the same name
     #[kani::proof] #[kani::unwind(12)]
     fn e1500_profile_names_are_unique() {
-        let p = problem::<3, 0>(None);
+        let p = problem::<2, 0>(None); // (two profiles: the three-id case of the shared helper is the harness above)
         let ci = CoordIndex { max_matrix_index: 0 };
         let n = |i: usize| p.fleet.profiles[i].name;
-        let broken = n(0) == n(1) || n(0) == n(2) || n(1) == n(2);
+        let broken = n(0) == n(1);
         expect(check_e1500_duplicated_profiles(&ValidationContext { problem: &p, matrices: None, coord_index: &ci }), broken, b"E1500");
     }
 
